@@ -113,9 +113,11 @@ def run_config(chk, config):
             extra_c = [c_eq(L0, Lin.const(L))]
             oks = []
             len_rejects = []
+            n_results = 0
             for s2, v2 in rets:
                 if not layout.conj_feasible(eng, s2, extra_c):
                     continue
+                n_results += 1
                 vi2, p2 = result_parts(v2)
                 if vi2 == 0:
                     oks.append(layout.canon_reader(eng, s2, layout.rtokens(eng, s2), p2))
@@ -134,6 +136,9 @@ def run_config(chk, config):
             if want is None:
                 if oks:
                     mism.append("length %d: accepted as %s, the format needs more octets" % (L, oks[0]))
+                elif not n_results and not eng.unmodelled and not eng.aborted:
+                    # too short for the format: the answer must be an error value, and there is no return path at all
+                    mism.append("length %d: the decoder does not return (the format says: rejected as too short)" % L)
             else:
                 if not oks or not all(match_reader(g, want) for g in oks):
                     mism.append("length %d: decoded as %s, specified %s" % (L, oks[:1] or "rejected", want))
@@ -273,6 +278,9 @@ def run(chk):
     import rules.c17 as c17
     Sub(chk, "via C16 | ", lambda k: not (" encode" in k)).borrow(c16, "default", 15, "decode-side code tables")
     Sub(chk, "via C17 | ", lambda k: k.startswith(("spec-bit", "accessor", "wire"))).borrow(c17, "default", 12, "capability/type bit assignments")
+    # a control message is in the language only if every one of its AVP records is: acceptance at the message level (C15)
+    import rules.c15 as c15
+    Sub(chk, "via C15 | ", lambda k: k.startswith("all-or-nothing")).borrow(c15, "default", 4, "all-or-nothing acceptance of control messages")
     if chk.tier == "thorough":
         for cfg in ("debug", "release"):
             run_config(chk, cfg)
